@@ -161,6 +161,10 @@ def _run_case(case, bld, workdir, keep=False, extra_env=None):
                 "ASAN_OPTIONS": "detect_leaks=0:abort_on_error=1:log_path=%s/asan:allocator_may_return_null=1:max_allocation_size_mb=2048" % outdir,
                 "UBSAN_OPTIONS": "print_stacktrace=1:halt_on_error=1:log_path=%s/ubsan" % outdir,
                 "OMPI_MCA_rmaps_base_oversubscribe": "1", "TMPDIR": tmpd,
+                # ROMIO's write data sieving is a read-modify-write of whole file ranges: it puts read-back garbage into
+                # never-written gaps and loses a concurrent independent write of another rank to a neighbouring element
+                # (both reproduced without PnetCDF).  It is switched off for every run through ROMIO's system hints file.
+                "ROMIO_HINTS": os.path.join(VERIF, "driver", "romio_hints.txt"),
                 # session directory and shared-memory segments live inside the case directory, so that a case killed by
                 # the watchdog leaves nothing behind in /dev/shm once its directory is removed
                 "OMPI_MCA_btl_vader_backing_directory": tmpd, "OMPI_MCA_orte_tmpdir_base": tmpd})
